@@ -239,6 +239,9 @@ theorem customBuildStep_np (ev : EvalExpr) (flat : Flat) (m : Module) (srcdir : 
     (combined : Option (List String)) (cb : CustomBuild) (ls : LoopState) :
     NoPanic (customBuildStep ev flat m srcdir sources combined cb ls) := by
   unfold customBuildStep
+  split
+  · exact np_err _
+  unfold customBuildStepCore
   exact NoPanic.bind (unwrapX_np _ _) fun _ =>
     NoPanic.bind (np_mapM (fun _ => unwrapX_np _ _) _) fun _ =>
     NoPanic.bind (np_mapM (fun _ => unwrapX_np _ _) _) fun _ => np_ok _
